@@ -220,6 +220,11 @@ _SPECS = {
     'd3_reuse':      {'hierarchy': ['class', 'subclass', 'cluster'],
                       'class': {'A': ['B', 'A'], 'B': ['C']},
                       'subclass': {'A': ['A', 'c1'], 'B': ['B'], 'C': ['c3', 'C']}},
+    # node names containing '/' (e.g. the cortical layer types 'L2/3 IT'): marker groups are addressed by
+    # 'level/node' paths, the node part may itself contain separators
+    'd3_slash':      {'hierarchy': ['class', 'subclass', 'cluster'],
+                      'class': {'IT/ET': ['L2/3 IT', 'L5 ET'], 'Inh': ['Sst/Chodl']},
+                      'subclass': {'L2/3 IT': ['c0', 'c1/a'], 'L5 ET': ['c2'], 'Sst/Chodl': ['c3', 'c4']}},
     # a level whose name is a prefix of the next level's name
     'd3_prefix':     {'hierarchy': ['type', 'type_fine', 'cluster'],
                       'type': {'T1': ['f2'], 'T0': ['f0', 'f1']},
